@@ -32,10 +32,18 @@ def rel_diff(a, b):
 
 
 def run(ctx):
-    env = kit.Env(ctx)
+    # odd shards import the unit modules in a shuffled order: the order of neighbours in the ratio
+    # table follows declaration order and steers the depth-first path search (route choice)
+    order = None
+    if ctx.shard % 2 == 1:
+        from .. import boot as B
+        order = list(B.ALL_MODULES)
+        ctx.rng.shuffle(order)
+        ctx.count("shards_with_shuffled_import_order")
+    env = kit.Env(ctx, order=order)
     m, mdl, pools, rng, orc = env.m, env.mdl, env.pools, ctx.rng, env.orc
     CNF = env.conv.ConversionNotFound
-    n = ctx.scale(3000, 300_000)
+    n = ctx.scale(8000, 300_000)
     for i in range(n):
         ctx.count("evaluations")
         fa = pools.random_factors(rng, hostile=rng.choice([0.0, 0.4]), physical_only=True)
@@ -63,6 +71,9 @@ def run(ctx):
                 return None
             except ArithmeticError:
                 ctx.count("legs_magnitude_arithmetic_error")  # float overflow on extreme prefixes, not a linearity question
+                return None
+            except Exception as e:  # an internal error of the planner is C07's business; the relation has no answer
+                ctx.count(f"legs_other_exception/{type(e).__name__}")
                 return None
             if r.unit is not u:
                 ctx.violation("C05:wrong-unit", f"{q!r}.in_unit({u}) has unit {r.unit}", case)
